@@ -226,6 +226,19 @@ class SyncedList(SyncedCollection, MutableSequence):
         self._load()
         return reversed(self._data)
 
+    # The Sequence mixins for membership, index and count compare element by
+    # element, and comparing a nested collection reloads the whole root: the
+    # list could change (also in place, under the running iteration) between
+    # two elements. They therefore work on one consistent snapshot.
+    def __contains__(self, value):
+        return value in self()
+
+    def index(self, value, *args):  # noqa: D102
+        return self().index(value, *args)
+
+    def count(self, value):  # noqa: D102
+        return self().count(value)
+
     def __iadd__(self, iterable):
         # Convert input to a list so that iterators work as well as iterables.
         iterable_data = list(iterable)
